@@ -25,11 +25,15 @@ HdrActs == Hdr.acts
 HdrCondCodes == Hdr.codes
 HdrOneShot == Rng(Hdr.oneshot)
 
+CONSTANT AllowDev   \* TRUE: also try the named deviation(s) below (only used to classify a round the strict run rejects)
+
 VARIABLES mem,   \* the specification's state of the locations of the round
           pend,  \* called, not yet taken effect:   <<g, k>> -> operation
           lin,   \* taken effect, not yet returned: <<g, k>> -> [op, resp]
+          via,   \* how the round's requests were made: "" (core.Location), "system", "http"
+          half,  \* deviation only: events that have found their rules but not yet checked the disable flags
           l
-vars == <<mem, pend, lin, l>>
+vars == <<mem, pend, lin, via, half, l>>
 
 Locs == {"A", "B", "C", "D"}
 NoG(m) == [a \in DOMAIN m |-> {}]
@@ -37,7 +41,7 @@ Ro(m) == [a \in DOMAIN m |-> FALSE]
 
 OpOf(e) == [op |-> e.op, loc |-> e.loc, id |-> e.id, rid |-> e.rid, val |-> Norm(e.val),
             inh |-> e.inh, wk |-> e.wk, rk |-> e.rk, now |-> e.now, flag |-> e.flag,
-            names |-> Rng(e.names), hooked |-> FALSE]
+            names |-> Rng(e.names), hooked |-> via # ""]
 
 NormFound(f) == {[id |-> f[i].id, bss |-> NormBs(f[i].bss)] : i \in DOMAIN f}
 NoBody(F) == {[id |-> x.id, bss |-> x.bss] : x \in F}
@@ -52,35 +56,56 @@ RespMatch(op, r, lr) ==
 
 Without1(f, key) == [x \in DOMAIN f \ {key} |-> f[x]]
 
-Init == l = 2 /\ mem = <<>> /\ pend = <<>> /\ lin = <<>>
+Init == l = 2 /\ mem = <<>> /\ pend = <<>> /\ lin = <<>> /\ via = "" /\ half = <<>>
 
 Round(e) == /\ e.ev = "round"
-            /\ mem' = [a \in {"A"} |-> <<>>] /\ pend' = <<>> /\ lin' = <<>> /\ l' = l + 1
+            /\ mem' = [a \in Rng(e.locs) |-> <<>>] /\ pend' = <<>> /\ lin' = <<>> /\ via' = e.via /\ half' = <<>> /\ l' = l + 1
 Call(e) == /\ e.ev = "call"
            /\ pend' = pend @@ (<<e.g, e.k>> :> OpOf(e))
-           /\ l' = l + 1 /\ UNCHANGED <<mem, lin>>
+           /\ l' = l + 1 /\ UNCHANGED <<mem, lin, via, half>>
 \* the instant at which a pending operation takes effect
 Lin == \E key \in DOMAIN pend :
           \E o \in Step(mem, Ro(mem), pend[key], NoG(mem)) :
              /\ mem' = o.mem
              /\ lin' = lin @@ (key :> [op |-> pend[key], resp |-> o.resp])
              /\ pend' = Without1(pend, key)
-             /\ UNCHANGED l
+             /\ UNCHANGED <<l, via, half>>
 Ret(e) == /\ e.ev = "ret"
           /\ <<e.g, e.k>> \in DOMAIN lin
           /\ RespMatch(lin[<<e.g, e.k>>].op, lin[<<e.g, e.k>>].resp, e.res)
           /\ lin' = Without1(lin, <<e.g, e.k>>)
-          /\ l' = l + 1 /\ UNCHANGED <<mem, pend>>
+          /\ l' = l + 1 /\ UNCHANGED <<mem, pend, via, half>>
 \* everything has returned: memory and storage agree with the order chosen
 Final(e) == /\ e.ev = "final"
             /\ DOMAIN pend = {} /\ DOMAIN lin = {}
             /\ \A a \in DOMAIN mem : /\ DOMAIN mem[a] = Rng(e.disk[a])
-                                     /\ \A id \in DOMAIN mem[a] : id \in DOMAIN e.mem /\ Norm(e.mem[id]) = mem[a][id].body
-                                     /\ DOMAIN e.mem \subseteq DOMAIN mem[a]
-            /\ l' = l + 1 /\ UNCHANGED <<mem, pend, lin>>
+                                     /\ \A id \in DOMAIN mem[a] : id \in DOMAIN e.mem[a] /\ Norm(e.mem[a][id]) = mem[a][id].body
+                                     /\ DOMAIN e.mem[a] \subseteq DOMAIN mem[a]
+            /\ DOMAIN half = {}
+            /\ l' = l + 1 /\ UNCHANGED <<mem, pend, lin, via, half>>
+
+\* Named deviation D_EVENT_NOT_ATOMIC (known finding, C12): ProcessEvent finds the matching rules under the
+\* state lock, releases it, and only then looks up each rule's disable flag; a rule that is disabled and is
+\* removed (flag and all) in between is dispatched although it never was enabled.  Two instants instead of one.
+Find1 == \E key \in DOMAIN pend :
+           /\ AllowDev /\ pend[key].op = "ProcessEvent" /\ ~Has(pend[key].val, "trigger!")
+           /\ LET op == pend[key]
+                  vs == VisitSet(mem, op.now, op.loc, TRUE)
+                  cands == UNION {{[id |-> i, bss |-> Match(WhenPattern(RuleBody(mem[a][i])), op.val)] :
+                                     i \in MatchingRules(mem[a], op.now, op.val)} : a \in vs.locs}
+              IN /\ ~vs.err
+                 /\ half' = half @@ (key :> [op |-> op, cands |-> cands])
+                 /\ pend' = Without1(pend, key)
+           /\ UNCHANGED <<mem, lin, via, l>>
+Check2 == \E key \in DOMAIN half :
+            /\ LET op == half[key].op
+                   found == {c \in half[key].cands : ~RuleDisabled(mem[op.loc], op.now, c.id)}
+               IN lin' = lin @@ (key :> [op |-> op, resp |-> [R0 EXCEPT !.found = {[id |-> c.id, bss |-> c.bss, body |-> Null] : c \in found}]])
+            /\ half' = Without1(half, key)
+            /\ UNCHANGED <<mem, pend, via, l>>
 
 Next == \/ (l <= Len(Trace) /\ (Round(Trace[l]) \/ Call(Trace[l]) \/ Ret(Trace[l]) \/ Final(Trace[l])))
-        \/ (l <= Len(Trace) /\ Lin)
+        \/ (l <= Len(Trace) /\ (Lin \/ Find1 \/ Check2))
 Spec == Init /\ [][Next]_vars
 
 ASSUME TLCSet(1, 0)
